@@ -944,6 +944,11 @@ pub fn exec(ctx: &mut Ctx, op: &Value) -> (Value, Value) {
             res_ok(json!(null))
         }
         "noop" => res_ok(json!(null)),
+        "export" => {
+            // copy the memory file out of the scratch directory (debugging aid / corruption experiments)
+            let to = op["to"].as_str().unwrap_or("/tmp/export.mv2");
+            json!({"ok": std::fs::copy(&path, to).is_ok()})
+        }
         other => json!({"ok": false, "err": format!("UnknownOp:{other}")}),
     };
     (res, extra)
